@@ -43,7 +43,9 @@ def select(prop, t, sd):
     cur = corpus.curated(); cov = corpus.coverage_family(); nm = corpus.near_miss()
     nrnd = {'quick': 6, 'thorough': 50}[t]
     rnd = [corpus.random_grammar(sd, i, rich) for rich in (0, 1, 2) for i in range(nrnd)]
-    gs = cur + cov + nm + rnd
+    rec = corpus.recovery_family()
+    if t == 'quick': rec = rec[sd % 2::2]
+    gs = cur + cov + nm + rec + rnd
     if prop in ('C04', 'C05'):
         gs = [g for g in gs if not (g.features() & {'pred', 'assert'})]
     if prop == 'C08':
@@ -59,6 +61,8 @@ def run_parser_property(prop, evals=None, N=None, filt=None, level_text='', job=
     harness.build_llw()
     gs = grammars(t, sd) if grammars else select(prop, t, sd)
     if filt: gs = [g for g in gs if filt(g)]
+    if os.environ.get('VERIF_ONLY'):      # development aid: restrict the corpus by name (regex)
+        gs = [g for g in gs if re.search(os.environ['VERIF_ONLY'], g.name)]
     N = N or BOUNDS[t]
     opts = dict(evals=evals or [prop], validate=40 if t == 'quick' else 400, seed=sd)
     jobs = [(g, prop, N, opts) for g in gs]
